@@ -1,7 +1,7 @@
 SPECIFICATION Spec
 CONSTANTS
   Vals = {"a","b","c"}
-  L = 4
+  L = 5
 CONSTRAINT Bound
 INVARIANT Emit
 CHECK_DEADLOCK FALSE
